@@ -89,6 +89,8 @@ def profile(h=0):
     if h % 8 == 5:
         p.max_rows = 45
         p.min_ops, p.max_ops = 4, 10
+    if h % 4 == 3:  # no state peeks through the handle between a write and the getters that follow it
+        p.no_handle_peeks = True
     return p
 
 
